@@ -3,6 +3,8 @@
 From Coq Require Import List Arith Reals.
 From BZ Require Import Base.Ops Base.RInst Model.Curve Theory.CurveEvalExtra Theory.LocateTheory.
 From BZ Require Import Model.Triangle Theory.SignSoundR Theory.TriLocate.
+From Coq Require Import Qcanon.
+From BZ Require Import Base.QcInst Model.Locate Theory.Hom Theory.LocateModelTheory.
 Import ListNotations.
 
 (* a point that IS on the curve (exact arithmetic) is never pruned: at every depth of the bisection it lies in the
@@ -31,3 +33,13 @@ Theorem C10_triangle_subdivision_never_loses_a_point_of_the_triangle : forall n 
   tri_survives n d rows (tri_point d rows l1 l2 l3).
 Proof. exact tri_subdivision_never_prunes_the_point. Qed.
 Print Assumptions C10_triangle_subdivision_never_loses_a_point_of_the_triangle.
+
+(* the EXECUTABLE model of locate_point (Model/Locate.v: closed box test, bisection with the regenerated subdivision tables, the
+   regenerated number of rounds; corresponded with the code in both configurations) never answers None for a point that is on
+   the curve: exact data (rational control points, a rational point), a real parameter in [0,1], every degree and dimension *)
+Theorem C10_locate_model_finds_points_of_the_curve : forall (rows : list (list Qc)) (p : list Qc) (s : R),
+  Forall (fun r => (2 <= List.length r)%nat) rows -> (0 <= s <= 1)%R ->
+  Forall2 (fun r x => Qc2R x = LocateTheory.B (map Qc2R r) s) rows p ->
+  locate_point_py rows p <> LNone.
+Proof. exact locate_model_finds_points_of_the_curve. Qed.
+Print Assumptions C10_locate_model_finds_points_of_the_curve.
